@@ -3,7 +3,8 @@
 M: spec/Component.tla - the reconnect loop, one action per callback (Start, Check = transport_check, Fire = attempt_connect,
    Fail(fatal), Join, Leave, MainFails, Stop); configurations (1..3 transports, max_retries in {-1,0,1,2}, with / without
    main) are chosen in Init so one TLC run covers them all.  TLC: Budget, NoAttemptAfterFatal, PermIsForever, RoundRobin,
-   FirstImmediate, RetryWhileBudgetLeft, ExhaustedMeansError, DoneOnce, DoneOkOnlyBy, DoneErrOnlyBy.
+   FirstImmediate, RetryWhileBudgetLeft, ExhaustedMeansError, DoneOnce, DoneOkOnlyBy, DoneErrOnlyBy, and the liveness
+   property EventuallyDone (finite budgets, every attempt failing, weak fairness: start() completes).
 R: behaviours simulated by TLC from that model are turned into per-attempt outcome scripts (refused / transport handshake
    fails / ABORT / joined-then-lost / joined-then-leave / main returns / main raises, classifier verdicts, stop() points)
    and replayed into the real Twisted Component (fake IStreamClientEndpoint provider, task.Clock) and the real asyncio
@@ -127,7 +128,7 @@ def randomised(rng, n):
 def run(res):
     thorough = res.tier == "thorough"
     rng = random.Random(res.seed * 7919 + 14)
-    for cfg in ("MC_Component.cfg", "MC_Component_dev.cfg"):
+    for cfg in ("MC_Component.cfg", "MC_Component_dev.cfg", "MC_Component_live.cfg"):      # _live: liveness EventuallyDone under fairness
         r = tlc.run_tlc("MC_Component", cfg, workers=8)
         res.add_model("Component/" + cfg, r)
     sim = tlc.simulate("MC_Component", "MC_Component_dev.cfg", num=(3000 if thorough else 400), depth=24, seed=res.seed + 1)
